@@ -29,7 +29,7 @@ META = {
     'components_real': ['MemoryRecording.get_data / pickle_copy', 'TapeRecorder record + play + recorded-output extraction', 'all three cassettes'],
     'components_stub': ['S3 bucket', 'service and environment'],
     'budgets': {'quick': {'seconds': 25}, 'thorough': {'seconds': 360}},
-    'required_probes': {'thorough': ['concurrent_reads', 'value_class_with_copy_hooks', 'mutated_get_data', 'mutated_item_access', 'mutated_metadata', 'mutated_recorded_output', 'service_mutated_value',
+    'required_probes': {'thorough': ['copy_failed_in_an_earlier_operation', 'concurrent_reads', 'value_class_with_copy_hooks', 'mutated_get_data', 'mutated_item_access', 'mutated_metadata', 'mutated_recorded_output', 'service_mutated_value',
                                      'copy_on_interception', 'mutated_playback_output', 'exception_with_mutable_payload']},
 }
 
@@ -79,6 +79,30 @@ def values_with_copy_hooks(tape, clock):
     finally:
         store.close()
     return run
+
+
+def copies_failed_earlier(run, recorder):
+    """History on the same recorder: an earlier operation (copy-on-interception on) intercepted values of every container
+    type whose copy failed because a member could not be serialized.  Later values of those types are copied all the same."""
+    from playback.tape_recorder import RecordingParameters
+    bad = R.D.Unserializable(1)
+    shapes = [[bad], {'k': bad}, set([1]), (bad,), R.D.Pt(member=bad), R.D.Box(member=[bad]), 'text', 7]
+
+    @recorder.recording_params(RecordingParameters(copy_data_on_intercepion=True))
+    class Earlier(object):
+        @recorder.operation()
+        def execute(self):
+            return [type(self.fetch(n)).__name__ for n in range(len(shapes))]
+
+        @recorder.intercept_input('earlier_fetch')
+        def fetch(self, n):
+            return shapes[n]
+    R.D.register('Earlier', Earlier)
+    try:
+        Earlier().execute()
+    except Exception:
+        pass
+    run.probe('copy_failed_in_an_earlier_operation')
 
 
 def concurrent_reads(tape, clock):
@@ -229,6 +253,9 @@ def _run(tape, clock):
         spy = R.SpyCassette(cas, run)
         recorder = TapeRecorder(spy)
         recorder.enable_recording()
+        if copy_on and tape.draw(3) == 2:
+            copies_failed_earlier(run, recorder)
+            spy.calls[:] = []
         env = R.Env(spec_rec, run, recorder)
         env.fresh_copies = True
         from props.c09 import real_thread_factory
